@@ -148,6 +148,7 @@ size_t stack_run(stack_fn fn, void *arg);  /* runs fn(arg) on a painted 16 MiB s
 int  wf_check(const cJSON *root, int flags, const char *what);  /* 0 ok, else violation logged */
 int  tn_dump(bbuf *out, const cJSON *root);                      /* 0 ok, -1 step cap hit (cycle) */
 long tn_preorder_index(const cJSON *root, const cJSON *target);  /* -1 if not found */
-cJSON *tn_build(const char **pp);                                /* build through the public API from TN text */
+cJSON *tn_build(const char **pp);
+void   tn_release_pinned(void);                               /* items referenced by built trees */                                /* build through the public API from TN text */
 
 #endif
